@@ -4,8 +4,11 @@ from props import common
 
 ID = "C07"
 LEVEL = "proof"
+LEVEL_TEXT = 'Lean 4 theorem that the code-order model of += (iaddCode) yields exactly addRaw for compatible operands; object identity / absence of shared state after += cannot be expressed in the value model and is decided by the harness on the real objects (snapshots before/after continuations on both operands).'
+LEVEL_NOTE = 'Aliasing part is observed on the implementation (differential + oracle), not proved; content part is proved on the model and tied by correspondence.'
+TECHNIQUE = 'Lean 4 proof (content) + correspondence + aliasing oracle on real objects'
 LEAN_MODULE = "Hg.Props.C07"
-THEOREMS = []
+THEOREMS = ["Hg.C07.iadd_eq_add", "Hg.C07.iadd_eq_add_sameBase"]
 CASES = {"quick": 300, "thorough": 10000}
 RULE = ("random tree, two reachable states a, b of it (either may be empty; sparse key sets overlap or not), s = a + b, "
         "then a += b, then continuations that keep filling b and a; distinct = hash of parameters")
